@@ -4,6 +4,7 @@ In concrete (replay) mode none of this is used: the real shapely runs.
 """
 from __future__ import annotations
 
+import fractions
 import itertools
 
 import numpy
@@ -198,7 +199,11 @@ class PointTree:
             if g is None:
                 continue
             closed = convex_contains(g, geometry.x, geometry.y)
-            if predicate in ('intersects', None, 'covered_by'):
+            if predicate is None:
+                # no predicate: every geometry whose bounding box contains the point
+                x0, y0, x1, y1 = [z3.RealVal(str(fractions.Fraction(v))) for v in g.bounds]
+                cond = z3.And(geometry.x.v >= x0, geometry.x.v <= x1, geometry.y.v >= y0, geometry.y.v <= y1)
+            elif predicate in ('intersects', 'covered_by'):
                 cond = closed
             elif predicate == 'within':
                 cond = self._interior(g, geometry)
